@@ -1,7 +1,7 @@
 (* C17 — room limits can only restrict the result.  Property theorems only. *)
 From Coq Require Import List ZArith Lia Bool Arith.
-Require Import HP1 Cao1 Cao3 Score1 Rooms Spec Valid Node NodeThms NodeWf Solve RoomThms.
-Require EngP2 C01 C08.
+Require Import HP1 Cao1 Cao3 Score1 Rooms Spec Valid Node NodeThms NodeWf Solve RoomThms NonBinding.
+Require EngP2 EngExt C01 C08.
 Import ListNotations.
 Open Scope nat_scope.
 
@@ -29,6 +29,25 @@ Theorem C17_nonbinding_gate : forall courses esize shrinkf rs nd a,
   room_gate courses esize shrinkf (Some rs) nd a = Val None.
 Proof. exact nonbinding_gate. Qed.
 
-Check C17_upper. Check C17_nonbinding_gate.
+(* ... consequently the node function gives, for EVERY subproblem, exactly the result it gives without a room list ... *)
+Theorem C17_nonbinding_node : forall courses parts esize shrinkf rs nd,
+  Valid courses parts -> NonBinding courses esize rs ->
+  run_full courses parts esize shrinkf (Some rs) nd = run_full courses parts esize shrinkf None nd.
+Proof. intros courses parts esize shrinkf rs nd V. apply (nonbinding_same_node courses parts esize shrinkf V). Qed.
+(* ... and the two searches are the same transition system: the same states are reachable, for every worker count and interleaving;
+   hence the same verdicts and scores (and, for one worker, the same assignment) *)
+Theorem C17_nonbinding : forall courses parts esize shrinkf rs smin smax k st,
+  Valid courses parts -> NonBinding courses esize rs ->
+  (SReach courses parts esize shrinkf (Some rs) smin smax k st <-> SReach courses parts esize shrinkf None smin smax k st).
+Proof.
+  intros courses parts esize shrinkf rs smin smax k st V NB.
+  assert (E : forall nd, f_full courses parts esize shrinkf (Some rs) nd = f_full courses parts esize shrinkf None nd).
+  { intros nd. unfold f_full. rewrite (nonbinding_same_node courses parts esize shrinkf V rs nd NB). reflexivity. }
+  split; apply EngExt.Reach_ext; [exact E|intros nd; symmetry; apply E].
+Qed.
+
+Check C17_upper. Check C17_nonbinding_gate. Check C17_nonbinding_node. Check C17_nonbinding.
 Print Assumptions C17_upper.
 Print Assumptions C17_nonbinding_gate.
+Print Assumptions C17_nonbinding_node.
+Print Assumptions C17_nonbinding.
